@@ -167,6 +167,43 @@ def check(run):
             if len(run._corr) < 3:
                 t = next(t for t in range(len(seq)) if I[t] != Mo[t])
                 run._corr.append({"stream": "metadata", "sequence": seq[:t + 1], "impl": I[t], "model": Mo[t]})
+    # (e) write, flush, DIE (abort: nothing is dropped, no destructor runs), then another process opens the location: everything
+    #     acknowledged before the successful flush must be there — every mutator, including the batch arms, and sequences whose
+    #     only writes after the previous flush are batch calls
+    import os, shutil, tempfile as _tf
+    crash_cases, crash_bad = 0, 0
+    for k in range(12 if quick else 120):
+        depth = rng.choice([3, 4, 5])
+        cap = 1 << depth
+        loc = _tf.mkdtemp(prefix="zkcrash-", dir=os.environ.get("TMPDIR"))
+        shutil.rmtree(loc)
+        pre = [treegen.gen_mutator(rng, cap, ["set", "app", "range"]) for _ in range(rng.randint(1, 4))]
+        last = rng.choice([f"batch 0x0 - {hex(rng.randrange(cap // 2))},{hex(rng.randrange(cap // 2, cap))}",           # removal-only batch (two indices)
+                           f"batch 0x0 - {hex(rng.randrange(cap))}", f"batch {hex(rng.randrange(cap))} {hex(rng.randint(1, 99))} -",
+                           f"set {hex(rng.randrange(cap))} {hex(rng.randint(1, 99))}", f"del {hex(rng.randrange(cap))}", f"app {hex(rng.randint(1, 99))}",
+                           f"range {hex(rng.randrange(cap))} {hex(rng.randint(1, 99))},{hex(rng.randint(1, 99))}", "meta set c0ffee"])
+        if last.startswith("batch 0x0 - ") and "," in last:
+            a_, b_ = sorted(int(x, 16) for x in last.split(" ")[3].split(","))
+            last = f"batch 0x0 - {hex(a_)},{hex(a_ + 1)}"        # contiguous pair: outside the effect of the open batch finding
+        obs = ["root", "next"] + [f"get {hex(i)}" for i in range(cap)] + ["meta get"]
+        first = [f"tree at {loc} {depth}"] + pre + ["close", last, "close", "crash"]
+        out1 = core.run_impl(zkh, first)
+        second = core.run_impl(zkh, [f"tree at {loc} {depth}"] + obs)
+        expect = core.run_lean("model", [f"tree new pmdisk {depth}"] + pre + ["close", last, "close"] + obs)
+        shutil.rmtree(loc, ignore_errors=True)
+        crash_cases += 1
+        run.count_case(("crash", tuple(first)))
+        run.cov["traces_validated_against_impl"] += 1
+        flushed_ok = len(out1) >= len(first) - 1 and out1[len(first) - 2] == "ok" and out1[len(first) - 4] == "ok"
+        acked = expect[1:len(pre) + 4]
+        if flushed_ok and out1[1:len(pre) + 4] == acked and second[1:] != expect[len(pre) + 4:]:
+            crash_bad += 1
+            j = next(i for i in range(len(obs)) if second[1 + i] != expect[len(pre) + 4 + i])
+            if crash_bad <= 2:
+                run.violation({"property": run.pid, "kind": "impl-vs-spec", "stream": "crash-after-flush", "ops": first + ["(new process)", f"tree at {loc} {depth}"] + obs[: j + 1],
+                               "detail": f"after write, successful flush and process death, a new process reads `{obs[j]}` = {second[1 + j][:70]}; acknowledged and flushed: {expect[len(pre) + 4 + j][:70]}",
+                               "impl_args": ["crash"]})
+    run.cov["crash_after_flush_cases"] = crash_cases
     # (d) flush, drop, re-create on the same location at once, in a loop: the file lock of the dropped instance is released
     #     asynchronously, so this is the history in which `load` meets a busy lock (theorems: ZkProofs.C16Reopen)
     import subprocess
@@ -190,5 +227,5 @@ def check(run):
     run.cov["fault_sequences"] = cases
     run.cov["fault_sequences_where_the_failure_fired"] = fired_total
     run.sample({"fault_sequence": lines_all[0][:10], "impl": impl[:10]})
-    run.rules.append("(d) 400 (thorough 6000) cycles of write, flush, drop, re-create on the same location at once, each checking that the flushed leaf and leaf count are still there; (c) metadata set / cleared / re-set after an injected write failure (the caller's retry) across close-reopen cycles, read back against the last acknowledged value; (a) random histories on an on-disk tree under five storage configurations (cache size, flush period, mode, compression), metadata, close, reopen with the same or a different depth argument, every leaf / subtree root / proof / metadata compared, then further operations and a second reopen; (b) for every operation of every history and EVERY storage-write position k inside it (hook H1 fails the k-th put / put_batch / flush): the operation must report an error, and after reopening every position it did not address must hold the last acknowledged value; the model predicts the exact stored state; distinct = distinct (history, operation, k)")
+    run.rules.append("(e) write / flush / abort the process / open the location from a new process: everything acknowledged before the successful flush must be read back (every mutator incl. batch arms as the only write since the previous flush); (d) 400 (thorough 6000) cycles of write, flush, drop, re-create on the same location at once, each checking that the flushed leaf and leaf count are still there; (c) metadata set / cleared / re-set after an injected write failure (the caller's retry) across close-reopen cycles, read back against the last acknowledged value; (a) random histories on an on-disk tree under five storage configurations (cache size, flush period, mode, compression), metadata, close, reopen with the same or a different depth argument, every leaf / subtree root / proof / metadata compared, then further operations and a second reopen; (b) for every operation of every history and EVERY storage-write position k inside it (hook H1 fails the k-th put / put_batch / flush): the operation must report an error, and after reopening every position it did not address must hold the last acknowledged value; the model predicts the exact stored state; distinct = distinct (history, operation, k)")
     run.confirm_witnesses()
